@@ -460,7 +460,7 @@ pub fn def(tier: Tier) -> PropertyDef {
         id: "C17",
         rule: "1..4 transfers {ecu, lifecycle, file name (plain, with directories, ../, absolute, duplicate, spaces), content 1..20000 bytes, package size (1..64, = size, fraction, half+1), integer widths 16/32/64, signed/unsigned package numbers, both byte orders} as FLST/FLDA/FLFI verbose messages, interleaved with each other and unrelated traffic; at most one fault (drop/duplicate/swap/resize a package, drop FLST, drop FLFI); plugin configs allowSave, keepFLDA, apid/ctid restriction, auto save (globs) with pre-existing file. Oracle: plugin state tree (complete iff all packages arrived in order), save command and auto save produce byte-identical files, faults never complete, directory snapshots (only autoSavePath/<basename> appears, nothing overwritten). Non-trivial: last package shorter, >=2 interleaved transfers or a fault.",
         assumptions: vec!["a transfer whose announcement is missing may or may not be completed; if it is, its content must be identical", "glob crate trusted for the expected auto save selection"],
-        subs: vec![sub("transfers", tier.pick(25_000, 600_000), case, check)
+        subs: vec![sub("transfers", tier.pick(40_000, 800_000), case, check)
             .rates(&[("ge2_transfers", 0.4), ("fault", 0.4), ("fault_dup", 0.03), ("fault_resize", 0.03), ("fault_swap", 0.03), ("last_package_shorter", 0.2), ("auto_save", 0.4)])
             .boxed()],
         workers: 16,
